@@ -37,7 +37,7 @@ func (f *Fragment) String() string {
 
 // Validate a type.
 func (f *Fragment) Validate(root *Root) (errs []error) {
-	if _, ok := f.Condition.(*Ref); ok {
+	if notCondType(f.Condition) {
 		// An inline fragment on an undefined type is a parse error, a named
 		// fragment on one must not be accepted either.
 		errs = append(errs, valError(f.line, f.col, "type %s not defined for fragment %s", f.Condition.Name(), f.Name))
